@@ -23,6 +23,18 @@ CHECKS = {
  "C12": dict(technique="bounded exhaustive enumeration of parser-produced ASTs (incl. forced shapes via full parenthesisation, mirrored children) and of operator re-registration histories; round-trip oracle",
    text="For every AST the parser returns on the program set (minimal, full and mirrored-full renderings) and on every accepted token sequence of <= 5 (6) tokens: parse(expr(t)) == t and expr() is idempotent. Plus every history of <= 3 re-registrations of an infix operator (fresh process each) with the round trip after each step.",
    note="Names are not operator words; trees of <= 3 operator nodes; re-registration histories of one operator over 4 (precedence, associativity) settings.", design="§4 C12"),
+ "C03": dict(technique="bounded exhaustive enumeration of operator applications over a value alphabet, compared with a reference evaluator (model)",
+   text="Every infix operator x every ordered pair of a 46-value alphabet covering every variant and every edge the handlers branch on (operands as context variables and as literal text), every prefix/postfix operator x V, aggregates over every argument list of length 0..3, conditional / list / map / membership over V^2 and all depth-2 compositions over a sub-alphabet: engine result must equal the reference evaluator's (value or Err).",
+   note="Values outside the alphabet and compositions deeper than 2 are not enumerated; rust_decimal's checked ops define decimal arithmetic (C09 checks exactness independently).", design="§4 C03"),
+ "C04": dict(technique="exhaustive enumeration of the fault product (operators x edge operands) in two builds (release and dev), oracle: no unwind + agreement with a checked-arithmetic reference evaluator",
+   text="Zero divisors in every spelling, operands within one step of Decimal::MAX/MIN and at 28-digit scale, shift counts around 0, 63/64, 2^31, 2^32, 2^63 and fractional/scaled counts, non-integral / scaled / out-of-i64 bit operands, empty aggregates and every ill-typed operand pair, all evaluated in a release build and in a dev build (overflow checks on): never a panic, never a wrapped/masked number.",
+   note="The edge lattice, not all decimals. The harness dev profile (opt-level 1, overflow checks and debug assertions on) stands for the debug build.", design="§4 C04"),
+ "C09": dict(technique="bounded exhaustive enumeration of literal texts and operand pairs on edge lattices, compared with an independent exact 256-bit integer decimal oracle (model)",
+   text="~1000 edge mantissas x every scale 0..28 x value-preserving spellings must evaluate to exactly (mantissa, scale); malformed literals must be rejected; all ordered pairs of 175 edge operands and the complete square of small operands under + - * % < <= > >= == != and compound forms must equal the exact result whenever it fits 96 bits / 28 places.",
+   note="A finite lattice of the 2^96 x 29 domain; carry chains inside rust_decimal beyond the lattice are trusted; results that do not fit are skipped (C04).", design="§4 C09"),
+ "C17": dict(technique="exhaustive enumeration (all values of 8/16-bit types) and boundary-lattice enumeration of conversions, oracles independent of rust_decimal arithmetic",
+   text="From<i8|u8|i16|u16> on all values, wider integer types on the +-2^k, +-10^k, MIN/MAX, 2^96 lattice plus contiguous runs at type boundaries, From<f32|f64> on mantissa patterns x every exponent, integer() on a (mantissa, scale, sign) lattice against integer division, every accessor x every variant, From round trips for strings, booleans, decimals, lists.",
+   note="Out-of-range i128/u128/f32/f64 and non-finite floats becoming 0 are recorded known findings (infallible From); float conversion judged to DBL_DIG/FLT_DIG digits.", design="§4 C17"),
 }
 
 def main():
